@@ -384,6 +384,29 @@ fn helpers(frags: &[String], t: &mut Tally) {
     }
 }
 
+/// Quoted contents that are not an expression: one helper keeps the literal, the other rejects.
+fn helpers_unparseable(t: &mut Tally) {
+    use darling::util::parse_expr::{parse_str_literal, preserve_str_literal};
+    for contents in ["a +", "", "hello world", "Vec::new(", "1 + , 2", ")", "let x ="] {
+        for m in [meta_lone(&format!("v = {}", rust_str(contents))), meta_in_list(&format!("v = {}", rust_str(contents)))].into_iter().flatten() {
+            t.evaluations += 1;
+            t.hit("helpers_checked");
+            let a = preserve_str_literal(&m).map(|e| squash(e.to_token_stream().to_string())).map_err(|e| e.to_string());
+            let b = parse_str_literal(&m);
+            let c = <syn::Expr as FromMeta>::from_meta(&m);
+            let ok = a.as_ref().ok() == ts(&rust_str(contents)).as_ref() && b.as_ref().err().map(|e| e.has_span()).unwrap_or(false) && c.is_err();
+            if !ok {
+                t.violate(Violation {
+                    key: format!("C13 helpers unparseable contents=`{contents}` :: preserve={a:?} parse={:?} expr={:?}", b.as_ref().map(|e| e.to_token_stream().to_string()).map_err(|e| e.to_string()), c.as_ref().map(|e| e.to_token_stream().to_string()).map_err(|e| e.to_string())),
+                    what: format!("`v = {}`: the contents are not an expression: preserve_str_literal must keep the literal (got {a:?}), parse_str_literal and the Expr target must reject with a span (got {:?} / {:?})", rust_str(contents), b.map(|e| e.to_token_stream().to_string()).map_err(|e| e.to_string()), c.map(|e| e.to_token_stream().to_string()).map_err(|e| e.to_string())),
+                    case: json!({"fragment": contents}),
+                    detail: json!({}),
+                });
+            }
+        }
+    }
+}
+
 /// List-form targets: PathList, Vec<Lit*>, Meta.
 fn list_forms(t: &mut Tally) {
     let cases: Vec<(&str, Vec<&str>)> = vec![("v(a, b::c, ::d)", vec!["a", "b :: c", ":: d"]), ("v()", vec![]), ("v(a)", vec!["a"])];
@@ -458,6 +481,7 @@ pub fn main(args: &Args) {
         vrt::spans::reset();
     }
     helpers(&frags, &mut t);
+    helpers_unparseable(&mut t);
     list_forms(&mut t);
     rep.absorb(t);
     rep.set("targets", json!(tgs.len()));
